@@ -8,6 +8,7 @@ clean() { git -C "$WT" checkout -q -- . ; git -C "$WT" clean -fdq -e target; }
 for D in "$SRC/$ID"/m*; do
   [ -f "$D/patch.diff" ] || continue
   k="$(basename "$D")"
+  grep -q "^$ID/$k " "$OUT" 2>/dev/null && continue
   cmd="$(python3 -c "import json,sys; print(json.load(open('$D/meta.json')).get('demo_cmd','') )" 2>/dev/null)"
   case "$cmd" in *"cargo run"*) : ;; *) cmd="cargo run --offline --example demo" ;; esac
   cmd="$(echo "$cmd" | sed -E 's#^cd [^&]*&& *##; s#  +\(.*$##; s# *\#.*$##')"
